@@ -11,7 +11,7 @@ from vcommon import *
 PROP = "C12"
 HERE = os.path.dirname(os.path.abspath(__file__))
 TZS = ["UTC", "Asia/Tokyo", "America/Los_Angeles", "Pacific/Kiritimati", "XYZ-14", "ABC+11:30", "Europe/London"]
-KNOBS = ["clock", "tz", "mtime", "heap", "pid", "tmpname", "stack", "envvars", "cwd", "fds", "perm", "ids"]
+KNOBS = ["clock", "tz", "mtime", "heap", "pid", "tmpname", "stack", "envvars", "cwd", "fds", "perm", "ids", "stdin"]
 TIMEOUT = 10
 TIME_MACROS = re.compile(r"__DATE__|__TIME__|__TIMESTAMP__")
 
@@ -72,6 +72,7 @@ def gen_env(r):
             "tz": r.pick(TZS), "mtime": r.range(1, 4000000000), "heap": r.u64(), "pid": r.range(2, 4000000),
             "tmpname": "".join(r.pick("abcdefghijklmnopqrstuvwxyzABCDEFGHIJKLMNOPQRSTUVWXYZ0123456789") for _ in range(6)),
             "stack": r.pick([r.range(0, 4000), r.range(0, 120000), r.range(60000, 250000)]),   # bytes of environment: moves the stack by up to 250 KB
+            "stdin": [r.pick(["pipe", "file", "file"]), r.pick([0, 0, 1, 17, 4096, 70000])],
             "cwd": "cw" + "".join(r.pick("abcdefghij_") for _ in range(r.pick([1, 3, 8, 40, 120]))),
             "fds": r.pick([0, 0, 1, 3, 17]),
             "perm": [r.pick([0o644, 0o444, 0o755, 0o600]), r.below(2)],
@@ -246,13 +247,43 @@ def gen_lex_file(r):
     return "\n".join(out) + "\nint main(void) { return 0; }\n"
 
 
+SPECS = ["typedef", "static", "extern", "inline", "_Thread_local", "__thread", "register", "auto", "const", "volatile", "restrict", "signed", "unsigned", "short", "long",
+         "long long", "int", "char", "float", "double", "_Bool", "void", "_Atomic", "_Noreturn", "_Alignas(8)", "_Alignas(int)", "__attribute__((packed))", "struct S0", "enum E0", "T0"]
+
+
+def gen_decl_file(r):
+    """declaration-specifier soup: random sequences of storage classes, qualifiers and type specifiers in every
+    position a declaration can stand (file scope, block scope, parameters, members, typedefs, casts, sizeof);
+    most are rejected, and the diagnosis (which one, where) must not depend on who compiled the compiler"""
+    out = ["struct S0 { int m; };", "enum E0 { E0a, E0b };", "typedef int T0;"]
+    n = r.range(3, 10)
+    for i in range(n):
+        specs = " ".join(r.pick(SPECS) for _ in range(r.range(1, 5)))
+        k = r.below(7)
+        if k == 0:
+            out.append("%s g%d;" % (specs, i))
+        elif k == 1:
+            out.append("%s f%d(%s p, %s);" % (specs, i, " ".join(r.pick(SPECS) for _ in range(r.range(1, 3))), " ".join(r.pick(SPECS) for _ in range(r.range(1, 3)))))
+        elif k == 2:
+            out.append("void b%d(void) { %s l%d; %s x%d = 0; }" % (i, specs, i, " ".join(r.pick(SPECS) for _ in range(r.range(1, 3))), i))
+        elif k == 3:
+            out.append("struct M%d { %s m%d; %s : 3; };" % (i, specs, i, r.pick(["int", "unsigned", "_Bool", "long", "char"])))
+        elif k == 4:
+            out.append("int s%d = sizeof(%s) + _Alignof(%s);" % (i, specs, " ".join(r.pick(SPECS) for _ in range(r.range(1, 3)))))
+        elif k == 5:
+            out.append("long c%d(long v) { return (%s)v; }" % (i, specs))
+        else:
+            out.append("typedef %s TD%d; TD%d v%d;" % (specs, i, i, i))
+    return "\n".join(out) + "\nint main(void) { return 0; }\n"
+
+
 def list_inputs(src):
     own = [os.path.join(src, f) for f in sorted(os.listdir(src)) if f.endswith(".c")]
     tests = [os.path.join(src, "test", f) for f in sorted(os.listdir(os.path.join(src, "test"))) if f.endswith(".c")]
     return own, tests
 
 
-OPTION_SETS = [["-###"], ["-###", "-c"], [], ["-###", "-static"], ["-###", "-shared", "-fPIC"], ["-###", "-L.", "-lm", "-Wl,--as-needed,-z,now", "-Xlinker", "--no-undefined", "-s"],
+OPTION_SETS = [["-xc-stdin", "-S"], ["-xc-stdin", "-E"], ["-xc-stdin", "-c"], ["-###"], ["-###", "-c"], [], ["-###", "-static"], ["-###", "-shared", "-fPIC"], ["-###", "-L.", "-lm", "-Wl,--as-needed,-z,now", "-Xlinker", "--no-undefined", "-s"],
                ["-###", "-S", "-xc", "-idirafter", "test", "-I.", "-include", "stdbool.h"],
                ["-M", "-MT", "foo bar$x.o"], ["-MD", "-MP", "-MT", "a#b", "-S"], ["-MMD", "-c"], ["-M", "-MP"], ["-M", "-MQ", "x y$.o"], ["-MD", "-MT", "t1", "-MT", "t2", "-E"],
                ["-E", "-xc"], ["-S", "-x", "c"], ["-E", "-DX=a=b", "-DY=", "-UX", "-D", "Z(a,b)=a##b"], ["-S", "-idirafter", "test", "-fno-common"],
@@ -263,9 +294,12 @@ OPTION_SETS = [["-###"], ["-###", "-c"], [], ["-###", "-static"], ["-###", "-sha
 
 def gen_case(seed, src, own, tests, avail=None):
     r = Rng(seed)
-    x = r.below(27)
+    x = r.below(30)
     gen_text = None
-    if x >= 25:
+    if x >= 27:
+        path, mutated = tests[0], False
+        gen_text = gen_decl_file(r)
+    elif x >= 25:
         path, mutated = tests[0], False
         gen_text = gen_lex_file(r)
     elif x >= 24:
@@ -324,7 +358,9 @@ def run_replica(sdir, reps, stage, e, infile, opts, src, wdir, stats, timeout=No
     for f in (out, dep):
         if os.path.exists(f):
             os.unlink(f)
-    argv = ["setarch", "x86_64", "-R", "./chibicc"] + opts + ["-I" + os.path.join(src, "test"), "-I" + os.path.dirname(infile), infile]
+    from_stdin = "-xc-stdin" in opts
+    opts = [o for o in opts if o != "-xc-stdin"]
+    argv = ["setarch", "x86_64", "-R", "./chibicc"] + opts + ["-I" + os.path.join(src, "test"), "-I" + os.path.dirname(infile)] + (["-xc", "-"] if from_stdin else [infile])
     if "-E" not in opts and "-M" not in opts:
         argv += ["-o", out]
     if "-MD" in opts:
@@ -357,13 +393,28 @@ def run_replica(sdir, reps, stage, e, infile, opts, src, wdir, stats, timeout=No
     # a mutated input may make the front end loop or allocate without bound: 10 s wall / 4 GiB of output at most,
     # and the whole process group (driver and cc1) is killed on expiry
     extra_fds = [os.open("/dev/null", os.O_RDONLY) for _ in range(e.get("fds", 0))]
-    po = subprocess.Popen(argv, cwd=wdir, env=env_vars(e, sdir, stats), stdin=subprocess.DEVNULL, stdout=subprocess.PIPE, stderr=subprocess.PIPE,
+    stdin_arg, feed = subprocess.DEVNULL, None
+    if from_stdin:
+        kind, off = e.get("stdin", ["pipe", 0])
+        data = open(infile, "rb").read()
+        if kind == "pipe":
+            stdin_arg, feed = subprocess.PIPE, data
+        else:
+            # a regular file whose first `off` bytes the caller has already consumed: what is left to read is the input
+            sf = os.path.join(real_wdir, "stdin.bin")
+            with open(sf, "wb") as f:
+                f.write(b"@" * off + data)
+            stdin_arg = os.open(sf, os.O_RDONLY)
+            os.lseek(stdin_arg, off, os.SEEK_SET)
+    po = subprocess.Popen(argv, cwd=wdir, env=env_vars(e, sdir, stats), stdin=stdin_arg, stdout=subprocess.PIPE, stderr=subprocess.PIPE,
                           start_new_session=True, pass_fds=extra_fds)
+    if isinstance(stdin_arg, int) and stdin_arg >= 0 and from_stdin:
+        os.close(stdin_arg)
     for fd in extra_fds:
         os.close(fd)
     wdir = real_wdir
     try:
-        so, se = po.communicate(timeout=timeout or TIMEOUT)
+        so, se = po.communicate(feed, timeout=timeout or TIMEOUT)
     except subprocess.TimeoutExpired:
         try:
             os.killpg(po.pid, 9)
